@@ -65,7 +65,8 @@ pub fn decode(src: &mut Source) -> Box<dyn Case> {
     let mut insts: Vec<Inst> = Vec::new();
     let u = content_word(src, l, &au, 5, 9, &mut redraws);
     let v = content_word(src, l, &av, 5, 9, &mut redraws);
-    let x = content_word(src, l, &ax, 3, 9, &mut redraws);
+    // the filler may be a single letter or digit-like short word as well as a long one
+    let x = if src.chance(1, 4) { content_word(src, l, &ax, 1, 2, &mut redraws) } else { content_word(src, l, &ax, 3, 9, &mut redraws) };
     if let (Some(u), Some(v), Some(x)) = (u, v, x) {
         // ratings: uniform, and adversarially ordered in half of the instances
         let ratings = |src: &mut Source| -> (usize, usize) {
@@ -157,7 +158,9 @@ pub fn decode(src: &mut Source) -> Box<dyn Case> {
         let fs = tables::func_words(lang);
         if !fs.is_empty() {
             let f = src.pick(fs).to_string();
-            let sfx = word_from(src, &au, 1, 5);
+            // random letters, or exactly an inflectional ending (the stemmer then maps the content
+            // word back onto the function word: danse -> dans, overs -> over)
+            let sfx = if src.chance(1, 2) { word_from(src, &au, 1, 5) } else if src.chance(1, 2) { src.pick(suffixes(lang)).to_string() } else { src.pick(&["e", "s", "o", "a", "n", "r", "en", "es", "er"]).to_string() };
             let cw = format!("{}{}", f, sfx);
             // the filler must be unrelated to f as well: letters of the filler set that do not occur in f
             let fnorm: Vec<char> = pinned_normalise(lang, &f).chars().collect();
